@@ -43,7 +43,15 @@ def main():
         ],
         'checks': [],
         'not_applicable': [{'property_id': k, 'reason': v} for k, v in sorted(NOT_YET.items())],
-        'notes': 'See DESIGN.md. Exit codes: 0 held, 1 VIOLATION, 2 infrastructure failure.',
+        'notes': ('See DESIGN.md (section 12 = as built; 12.1 lists the obligations of a run). Every check = Lean theorems about the model '
+                  '(axiom audit on every run) + the tie of the model to /repo (translators re-run on the current source; binary64 '
+                  'instantiation of the model compared bit for bit with CPython) + the property clauses evaluated on the '
+                  'implementation; and, for every property alike: history noise and object-history checks, argument-form '
+                  'equivalence (harness/forms.py), purity of the call closure (effect analysis of C20), dependency checks of '
+                  'changed helpers, and the exercise obligation on changed statements (harness/changecov.py). '
+                  'Exit codes: 0 held, 1 VIOLATION (replay file named; "no-failing-input-found" when only an obligation broke), '
+                  '2 infrastructure failure. tools/seeded.sh, tools/harmless.sh: 120 kept seeded changes and 40 kept '
+                  'behaviour-preserving refactorings with which the checks were evaluated (DESIGN.md 12.5).'),
     }
     for pid, c in sorted(CLAIMED.items()):
         m['checks'].append({
